@@ -5,6 +5,8 @@ export GOFLAGS=-mod=mod GOPROXY=off
 mkdir -p .cache evidence replays
 # 1. Lean: the property modules + drivers of every check registered in MANIFEST.json
 PROPS=$(python3 -c "import json; print(' '.join(c['property_id'] for c in json.load(open('MANIFEST.json'))['checks']))")
+# regenerated model parts (git-ignored) must exist before lake can build them
+[ -f translators/c19_regen.py ] && (python3 translators/c19_regen.py >/dev/null 2>&1 || echo 'setup: c19_regen failed')
 cd lean
 lake build DaeVerif.Common.Audit DaeVerif.Common.Proto DaeVerif.Common.RuleScan || exit 1
 rc=0
